@@ -498,6 +498,44 @@ func (in *callInliner) rewriteStmt(st ast.Stmt, depth int, active map[*ast.FuncD
 	if rep := in.expand(st, depth, active); rep != nil {
 		return rep
 	}
+	// `var ( a = f(x); b = g(a) )`: a spec whose single value is a helper call is read as `a := f(x)` (the other specs
+	// stay declarations, each on its own, in the original order). The inlined helper's statements are not wrapped in a
+	// block here, so that the declared name stays visible to what follows.
+	if ds, ok := st.(*ast.DeclStmt); ok {
+		if gd, ok := ds.Decl.(*ast.GenDecl); ok && gd.Tok == token.VAR {
+			any := false
+			for _, sp := range gd.Specs {
+				if vs, ok := sp.(*ast.ValueSpec); ok && len(vs.Names) == 1 && len(vs.Values) == 1 {
+					if call, ok := ast.Unparen(vs.Values[0]).(*ast.CallExpr); ok && in.helperFor(call, active) != nil {
+						any = true
+					}
+				}
+			}
+			if any && depth > 0 {
+				var out []ast.Stmt
+				for _, sp := range gd.Specs {
+					vs, ok := sp.(*ast.ValueSpec)
+					if ok && len(vs.Names) == 1 && len(vs.Values) == 1 {
+						if call, ok := ast.Unparen(vs.Values[0]).(*ast.CallExpr); ok && in.helperFor(call, active) != nil {
+							as := &ast.AssignStmt{Lhs: []ast.Expr{vs.Names[0]}, TokPos: vs.Pos(), Tok: token.DEFINE, Rhs: []ast.Expr{vs.Values[0]}}
+							if rep := in.expand(as, depth, active); rep != nil {
+								for _, rs := range rep {
+									if b, ok := rs.(*ast.BlockStmt); ok {
+										out = append(out, b.List...)
+									} else {
+										out = append(out, rs)
+									}
+								}
+								continue
+							}
+						}
+					}
+					out = append(out, &ast.DeclStmt{Decl: &ast.GenDecl{TokPos: sp.Pos(), Tok: token.VAR, Specs: []ast.Spec{sp}}})
+				}
+				return out
+			}
+		}
+	}
 	switch t := st.(type) {
 	case *ast.BlockStmt:
 		return []ast.Stmt{in.rewriteBlock(t, depth, active)}
